@@ -412,6 +412,12 @@ func (e *Exec) load(s *State, loc *Loc) Value {
 }
 
 func (e *Exec) store(s *State, loc *Loc, v Value) {
+	if v.Fn != nil && len(slotsOf(loc.T)) == 1 {
+		// a closure stored as data: an opaque, non-nil function object (calling it through the
+		// stored value is not supported; storing it is)
+		ref := e.alloc(s, types.NewArray(tInt, 0))
+		v = Value{T: loc.T, S: []string{ref}}
+	}
 	if v.Loc != nil || v.Fn != nil {
 		if loc.Kind == LCell {
 			// a generation-time-only value kept in a local cell: remember it on the side
